@@ -33,6 +33,13 @@ pub uninterp spec fn clock() -> int;
 
 #[derive(Clone, Copy, Debug)]
 pub struct Duration { pub d: u64 }
+impl Duration {
+    // std::cmp::Ord::max / min on Duration (A-std)
+    #[verifier::external_body]
+    pub fn max(self, o: Duration) -> (r: Duration) ensures r.d == (if self.d >= o.d { self.d } else { o.d }) { unimplemented!() }
+    #[verifier::external_body]
+    pub fn min(self, o: Duration) -> (r: Duration) ensures r.d == (if self.d <= o.d { self.d } else { o.d }) { unimplemented!() }
+}
 impl PartialEq for Duration { fn eq(&self, o: &Duration) -> (b: bool) ensures b == (self.d == o.d) { self.d == o.d } }
 impl vstd::std_specs::cmp::PartialEqSpecImpl for Duration {
     open spec fn obeys_eq_spec() -> bool { true }
